@@ -424,14 +424,17 @@ impl VersionManager {
             let current_min = self.min_version.load(Ordering::Acquire);
             let version = self.current_version.fetch_add(1, Ordering::AcqRel) + 1;
 
+            // Count the token while the lock is still held: a token that has a
+            // version but is not yet counted would let a concurrent release move
+            // min_version past it.
+            self.active_readers.fetch_add(1, Ordering::Relaxed);
+
             (version, current_min)
         } else {
             // Single-threaded modes don't need version tracking
+            self.active_readers.fetch_add(1, Ordering::Relaxed);
             (1, 1)
         };
-
-        // Increment active reader count
-        self.active_readers.fetch_add(1, Ordering::Relaxed);
 
         // Update statistics
         if let Ok(mut stats) = self.stats.lock() {
@@ -496,15 +499,17 @@ impl VersionManager {
             let current_min = self.min_version.load(Ordering::Acquire);
             let version = self.current_version.fetch_add(1, Ordering::AcqRel) + 1;
 
+            // Count the token while the lock is still held (see acquire_reader_token);
+            // a claimed OneWriteMultiRead slot is already counted.
+            if !slot_claimed {
+                self.active_writers.fetch_add(1, Ordering::Relaxed);
+            }
+
             (version, current_min)
         } else {
+            self.active_writers.fetch_add(1, Ordering::Relaxed);
             (1, 1)
         };
-
-        // Increment active writer count (already counted when the slot was claimed)
-        if !slot_claimed {
-            self.active_writers.fetch_add(1, Ordering::Relaxed);
-        }
 
         // Update statistics
         if let Ok(mut stats) = self.stats.lock() {
@@ -559,6 +564,13 @@ impl VersionManager {
     /// This is a simplified version - in a full implementation, this would
     /// track individual token versions in a linked list.
     fn try_advance_min_version(&self) {
+        // Serialise with token acquisition, which assigns a version and counts the
+        // token under the same lock: seeing both counters at zero here then means
+        // that every version up to current_version has been released.
+        let _lock = match self.token_chain_mutex.lock() {
+            Ok(lock) => lock,
+            Err(_) => return,
+        };
         if self.active_readers.load(Ordering::Relaxed) == 0
             && self.active_writers.load(Ordering::Relaxed) == 0
         {
